@@ -44,6 +44,9 @@ type Case struct {
 	// the actions' Stop first, while the processors are still running and the input and the output
 	// still work, so events are processed, delivered and committed after it.
 	StopFirst bool `json:"stop_first,omitempty"`
+	// ViaPipeline: the plugin is the last action of a real one-processor pipeline, behind an action that
+	// holds every event until the next one or the stream time-out releases it (chain_test.go)
+	ViaPipeline bool `json:"via_pipeline,omitempty"`
 }
 
 // ---------------------------------------------------------------- selector syntax (reference)
@@ -264,6 +267,7 @@ func gen(t *rapid.T) Case {
 		c.Instances = rapid.IntRange(2, 3).Draw(t, "ninstances")
 	}
 	c.StopFirst = rapid.IntRange(0, 7).Draw(t, "stopFirst") == 0
+	c.ViaPipeline = rapid.IntRange(0, 59).Draw(t, "viaPipeline") == 23
 	return c
 }
 
@@ -520,14 +524,24 @@ func run(c Case) *vkit.Outcome {
 			o.Class("instance-reused")
 		}
 	}
-	if c.StopFirst {
+	if c.StopFirst && !c.ViaPipeline {
 		o.Class("processed-after-the-actions-were-stopped")
+	}
+	if c.ViaPipeline {
+		o.Class("through-a-pipeline-behind-a-holding-action")
 	}
 
 	// check runs a fresh instance over docs and compares every event with the
 	// model; returns the parsed last event (nil if unusable).
 	check := func(which string, fields []string) *vkit.JNode {
-		outs, rejected, err := runPlugin(c.Plugin, docs, fields, c.Instances, c.StopFirst)
+		var outs []string
+		var rejected string
+		var err error
+		if c.ViaPipeline {
+			outs, rejected, err = runViaPipeline(c.Plugin, docs, fields)
+		} else {
+			outs, rejected, err = runPlugin(c.Plugin, docs, fields, c.Instances, c.StopFirst)
+		}
 		if err != nil {
 			o.Failf(P, c.Plugin+":do-failed", "%s list %q: %v", which, fields, err)
 			return nil
